@@ -11,6 +11,15 @@
    Pairs of edits (the second applied to the result of the first) for seeds of
    at most PairMax tokens, with alphabet tokens restricted to PairTok.
 
+   Byte-level end-of-file family (added after seeded change C13-1): every seed,
+   unedited, followed by one of NDir trailing directive lines (0 = none; the
+   harness's DIRS: #if 1/#endif, #pragma once, #include <stddef.h>, #define X,
+   #line 3, #error x, #undef X, #ifdef X/#else/#endif) and closed by one of NEnd
+   endings (ENDS: nothing, newline, backslash-newline, lone backslash, CR LF, CR,
+   backslash CR LF, blank, an unterminated comment, a line comment without
+   newline, an unterminated string / character constant): tail = [d, e].
+   Edits carry tail = [d |-> 0, e |-> 0] (the ordinary rendering, one newline).
+
    One TLC state per edited input; every state emits its input (CSVWrite).  The
    quick tier takes the VERIF_SEED-selected 1/Stride (pairs: 1/PairStride) of
    this closed domain; the guard is evaluated before the edit is applied.      *)
@@ -19,7 +28,8 @@ EXTENDS Integers, Sequences, FiniteSets, TLC, Json, IOUtils, CSV
 CONSTANTS NAlpha,       \* size of the edit alphabet
           PairMax,      \* seeds of at most this many tokens also get pairs of edits
           PairTok,      \* alphabet indices used in pairs
-          Seed, Stride, PairStride,
+          NDir, NEnd,   \* trailing directive lines 1..NDir (0 = none), endings 1..NEnd
+          Seed, Stride, PairStride, TailStride,
           Emit
 
 (* number of tokens of seed s: one JSON line {"n": ...} per seed, written by the harness after
@@ -52,9 +62,13 @@ Ix(s, e) == s * 7919 + KNo(e.k) * 104729 + e.i * 1299709 + e.t * 15485863
 Sel1(s, e) == (Ix(s, e) + Seed) % Stride = 0
 Sel2(s, e1, e2) == ((Ix(s, e1) % 1000003) * 31 + (Ix(s, e2) % 1000003) + Seed) % PairStride = 0
 
-Singles(L) == {x \in UNION {[s : {s}, ed : {<<e>> : e \in EditsOf(L[s], 1..NAlpha)}] : s \in 1..Len(L)} :
+NoTail == [d |-> 0, e |-> 0]
+Sel3(s, d, e) == (s * 7919 + d * 104729 + e * 1299709 + Seed) % TailStride = 0
+
+Singles(L) == {x \in UNION {[s : {s}, ed : {<<e>> : e \in EditsOf(L[s], 1..NAlpha)}, tail : {NoTail}] : s \in 1..Len(L)} :
                  Sel1(x.s, x.ed[1])}
-Pairs(L) == UNION {UNION {{[s |-> s, ed |-> <<e1, e2>>] :
+Tails(L) == {x \in [s : 1..Len(L), ed : {<<>>}, tail : [d : 0..NDir, e : 1..NEnd]] : Sel3(x.s, x.tail.d, x.tail.e)}
+Pairs(L) == UNION {UNION {{[s |-> s, ed |-> <<e1, e2>>, tail |-> NoTail] :
                              e2 \in {e \in EditsOf(Len(Apply(Ident(L[s]), e1)), PairTok) : Sel2(s, e1, e)}} :
                           e1 \in EditsOf(L[s], PairTok)} :
                    s \in {z \in 1..Len(L) : L[z] <= PairMax}}
@@ -63,14 +77,15 @@ VARIABLES lens,        \* number of tokens of each seed (constant after Init)
           cur, done
 SeedLens == lens
 
-Result(x) == IF Len(x.ed) = 1 THEN Apply(Ident(SeedLens[x.s]), x.ed[1])
+Result(x) == IF Len(x.ed) = 0 THEN Ident(SeedLens[x.s])
+             ELSE IF Len(x.ed) = 1 THEN Apply(Ident(SeedLens[x.s]), x.ed[1])
              ELSE Apply(Apply(Ident(SeedLens[x.s]), x.ed[1]), x.ed[2])
 
 Init == /\ lens = SeedLensFromFile
-        /\ cur \in Singles(lens) \cup Pairs(lens)
+        /\ cur \in Singles(lens) \cup Pairs(lens) \cup Tails(lens)
         /\ done = FALSE
 Next == /\ ~done /\ done' = TRUE /\ UNCHANGED <<cur, lens>>
-        /\ Emit => CSVWrite("%1$s", <<ToJson([s |-> cur.s, ed |-> cur.ed, r |-> Result(cur)])>>, IOEnv.OUT)
+        /\ Emit => CSVWrite("%1$s", <<ToJson([s |-> cur.s, ed |-> cur.ed, tail |-> cur.tail, r |-> Result(cur)])>>, IOEnv.OUT)
 Spec == Init /\ [][Next]_<<cur, done, lens>>
 
 (* what an edited input is: only seed tokens and alphabet tokens, length within the edit distance, and
@@ -80,4 +95,6 @@ WellFormed ==
   /\ Len(r) \in (n - m)..(n + m)
   /\ \A j \in 1..Len(r) : r[j] \in 1..n \/ -r[j] \in 1..NAlpha
   /\ (m = 1 => r # Ident(n))
+  /\ (m = 0 => r = Ident(n) /\ cur.tail.d \in 0..NDir /\ cur.tail.e \in 1..NEnd)
+  /\ (m > 0 => cur.tail = NoTail)
 =============================================================================
